@@ -94,6 +94,9 @@ pub fn ngram_pool(w: u8) -> Vec<TagNg> {
         TagNg::Type(vec![3, 2], 0),
         TagNg::Type(vec![2], w),
         TagNg::Type(vec![2, 3, 2], w),
+        // beyond the window: the trainer emits relative positions up to the n-gram size, which may exceed it
+        TagNg::Char("ab".into(), w + 1),
+        TagNg::Type(vec![2, 2], w + 2),
     ];
     p.dedup();
     let mut out: Vec<TagNg> = vec![];
